@@ -24,6 +24,41 @@ class _Ret(Exception):
 MAX_STEPS = 20000
 
 
+class Sym:
+    """an opaque dotted name (`StatEvents.MEAN_EVENT`): carried around, never computed with"""
+    def __init__(self, node):
+        self.node = node
+
+    def __eq__(self, o):
+        return isinstance(o, Sym) and ast.dump(self.node) == ast.dump(o.node)
+
+    def __hash__(self):
+        return hash(ast.dump(self.node))
+
+
+class Closure:
+    """a lambda created while a constant is built.  Defaults are evaluated when the lambda is created; a free variable is looked up
+    when the lambda is *called* -- for a constant built at import time that is after the building expression has finished, so the
+    variable has the last value its scope gave it (`env` is the live scope, shared by all iterations of a comprehension)."""
+    def __init__(self, node, env, defaults):
+        self.node, self.env, self.defaults = node, env, defaults
+
+
+class _Scope(dict):
+    """a comprehension scope: own variables + the enclosing scope for lookups"""
+    def __init__(self, parent):
+        super().__init__()
+        self.parent = parent
+
+    def lookup(self, k):
+        s = self
+        while s is not None:
+            if dict.__contains__(s, k):
+                return True, dict.__getitem__(s, k)
+            s = getattr(s, 'parent', None)
+        return False, None
+
+
 class Folder:
     def __init__(self, consts):
         self.consts = consts          # module-level constant name -> python value
@@ -141,11 +176,55 @@ class Folder:
         if isinstance(e, ast.Constant):
             return e.value
         if isinstance(e, ast.Name):
-            if e.id in env:
+            if isinstance(env, _Scope):
+                found, v = env.lookup(e.id)
+                if found:
+                    return v
+            elif e.id in env:
                 return env[e.id]
             if e.id in self.consts:
                 return self.consts[e.id]
             raise NotConstant(f'name {e.id}')
+        if isinstance(e, ast.Attribute):
+            x = e
+            while isinstance(x, ast.Attribute):
+                x = x.value
+            if isinstance(x, ast.Name) and x.id[:1].isupper() and not (x.id in env or x.id in self.consts):
+                return Sym(e)                    # Class.CONSTANT: an opaque reference
+            raise NotConstant('attribute')
+        if isinstance(e, ast.Lambda):
+            a = e.args
+            if a.vararg or a.kwarg or a.kwonlyargs or a.posonlyargs:
+                raise NotConstant('lambda signature')
+            return Closure(e, env, [self.ev(d, env) for d in a.defaults])
+        if isinstance(e, (ast.GeneratorExp, ast.ListComp)):
+            out = []
+            if isinstance(env, _Scope):
+                parent = env
+            else:
+                parent = _Scope(None)
+                parent.update(env)
+            scope = _Scope(parent)
+
+            def gen(i):
+                if i == len(e.generators):
+                    out.append(self.ev(e.elt, scope))
+                    return
+                g = e.generators[i]
+                if g.is_async:
+                    raise NotConstant('async comprehension')
+                it = self.ev(g.iter, scope if i else env)
+                if not isinstance(it, (tuple, list, dict)):
+                    raise NotConstant('loop over a non-literal')
+                for x in list(it):
+                    self.steps += 1
+                    if self.steps > MAX_STEPS:
+                        raise NotConstant('step bound')
+                    self.assign(g.target, x, scope)
+                    if all(self.ev(c, scope) for c in g.ifs):
+                        gen(i + 1)
+            gen(0)
+            return out
         if isinstance(e, ast.Tuple):
             return tuple(self.ev(x, env) for x in e.elts)
         if isinstance(e, ast.List):
@@ -226,6 +305,31 @@ class Folder:
 
 
 def to_ast(v):
+    if isinstance(v, Sym):
+        import copy as _copy
+        return _copy.deepcopy(v.node)
+    if isinstance(v, Closure):
+        import copy as _copy
+        lam = _copy.deepcopy(v.node)
+        lam.args.defaults = [to_ast(d) for d in v.defaults]
+        params = {a.arg for a in lam.args.args}
+        env = v.env
+
+        class _Free(ast.NodeTransformer):
+            def visit_Lambda(self, node):
+                return node if node is not lam else self.generic_visit(node)
+
+            def visit_Name(self, node):
+                if isinstance(node.ctx, ast.Load) and node.id not in params:
+                    if isinstance(env, _Scope):
+                        found, val = env.lookup(node.id)
+                    else:
+                        found, val = (node.id in env), env.get(node.id)
+                    if found:
+                        return ast.copy_location(to_ast(val), node)      # the value the variable has once the building expression is done
+                return node
+        lam.body = _Free().visit(lam.body)
+        return lam
     if isinstance(v, dict):
         return ast.Dict(keys=[to_ast(k) for k in v], values=[to_ast(x) for x in v.values()])
     if isinstance(v, tuple):
@@ -247,7 +351,8 @@ def fold_table_helpers(trees, base, log):
     for mname, tree in trees.items():
         known = base.get(mname, {})
         helpers = {n.name: n for n in tree.body if isinstance(n, ast.FunctionDef) and n.name not in known.get('funcs', {})}
-        if not helpers:
+        comps = any(isinstance(x, (ast.GeneratorExp, ast.ListComp)) for st in tree.body if isinstance(st, (ast.Assign, ast.AnnAssign)) for x in ast.walk(st))
+        if not helpers and not comps:
             continue
         # module-level literal constants (new or old) the helpers may read
         consts = {}
@@ -299,6 +404,7 @@ def fold_table_helpers(trees, base, log):
         for c in tree.body:
             if isinstance(c, ast.ClassDef):
                 fold_in(c.body)
+        count += fold_comprehension_constants(tree, known, consts)
         # helpers that are no longer referenced go
         for name, fn in helpers.items():
             refs = sum(1 for t in trees.values() for x in ast.walk(t) if (isinstance(x, ast.Name) and x.id == name) or (isinstance(x, ast.Constant) and x.value == name))
@@ -306,3 +412,27 @@ def fold_table_helpers(trees, base, log):
                 tree.body.remove(fn)
     if count:
         log.append(f'N1 {count} call(s) of a pure table-building helper with literal arguments folded into the constant they denote')
+
+
+def fold_comprehension_constants(tree, known, consts):
+    """`NAME = tuple(<comprehension over constant tables>)` for a new module-level NAME -> the literal it denotes"""
+    n = 0
+    for st in tree.body:
+        if not isinstance(st, (ast.Assign, ast.AnnAssign)) or getattr(st, 'value', None) is None:
+            continue
+        t = st.targets[0] if isinstance(st, ast.Assign) and len(st.targets) == 1 else getattr(st, 'target', None)
+        if not isinstance(t, ast.Name) or t.id in known.get('consts', ()):
+            continue
+        if not any(isinstance(x, (ast.GeneratorExp, ast.ListComp)) for x in ast.walk(st.value)):
+            continue
+        try:
+            f = Folder(consts)
+            v = f.ev(st.value, {})
+            new = to_ast(v)
+        except (NotConstant, _Ret, RecursionError):
+            continue
+        st.value = ast.copy_location(new, st.value)
+        ast.fix_missing_locations(st)
+        consts[t.id] = v
+        n += 1
+    return n
